@@ -143,23 +143,24 @@ def _check_find_bin(ctx, rule, fi, dim):
             if not edge_conds:
                 res["last"].append((False, f"last-bin branch returns {rtxt} without comparing the value with the last right edge"))
                 continue
-            e, val = edge_conds[-1]
             fp = (lambda n: isinstance(n, ast.Attribute) and n.attr == "includes_right_edge") if dim != 1 else None
-            tv = _truth_vector(e, vname, is_edge_last, fp)
             if dim == 1:
                 want_tv = {("lt", None): True, ("eq", None): True, ("gt", None): False}
             else:
                 want_tv = {("lt", True): True, ("lt", False): True, ("eq", True): True, ("eq", False): False,
                            ("gt", True): False, ("gt", False): False}
-            inside = val  # decision taken on this path
-            conv_ok = tv == want_tv
-            if inside:
-                ret_ok = rtxt in (f"{ixvar} - 1", f"int({ixvar} - 1)")
-            else:
-                ret_ok = rtxt == (counts[0] if dim == 1 else "None")
-            res["last"].append((conv_ok and ret_ok,
-                                f"`{U(e)}` = {'in' if inside else 'out'} -> return {rtxt}; truth over (v?E, right-incl) = "
-                                + ", ".join(f"{k[0]}{'' if k[1] is None else ('+' if k[1] else '-')}:{v_}" for k, v_ in tv.items())))
+            # the region of (value ? last edge, right-inclusion) in which ALL decisions of this path hold - computed from the
+            # atomic decisions, so that one compound test, nested ifs or early returns describe the same regions
+            atoms_ = [(e, val) for e, val, raw in decisions if not isinstance(e, ast.BoolOp) and (
+                (any(is_edge_last(n) for n in ast.walk(e)) and vname in U(e)) or (fp is not None and any(fp(n) for n in ast.walk(e))))]
+            tvs = [(_truth_vector(e, vname, is_edge_last, fp), val) for e, val in atoms_]
+            region = [k for k in want_tv if all(tv_[k] == val for tv_, val in tvs)]
+            inside = rtxt in (f"{ixvar} - 1", f"int({ixvar} - 1)")
+            outside = rtxt == (counts[0] if dim == 1 else "None")
+            conv_ok = bool(region) and all(want_tv[k] == inside for k in region) and (inside or outside)
+            res["last"].append((conv_ok,
+                                f"decisions {[(U(e), val) for e, val in atoms_]} -> return {rtxt}; they hold for (v?E, right-incl) in "
+                                + ", ".join(f"{k[0]}{'' if k[1] is None else ('+' if k[1] else '-')}" for k in region)))
         else:
             edge_conds = [(e, val) for e, val, raw in decisions
                           if any(is_edge_cur(n) for n in ast.walk(e)) and vname in U(e)]
